@@ -762,13 +762,20 @@ func (c *Client) readResponseTagged(tag, typ string) (startTLS *startTLSCommand,
 		return nil, fmt.Errorf("in resp-cond-state: expected OK, NO or BAD status condition, but got %v", typ)
 	}
 
-	if cmdErr == nil && code != "CAPABILITY" {
+	if cmdErr == nil {
 		switch cmd.(type) {
-		case *startTLSCommand, *loginCommand, *authenticateCommand, *unauthenticateCommand:
+		case *startTLSCommand:
+			// Capabilities received before TLS is started must be discarded,
+			// even the ones from the tagged response itself: it isn't
+			// protected by TLS
+			c.setCaps(nil)
+		case *loginCommand, *authenticateCommand, *unauthenticateCommand:
 			// These commands invalidate the capabilities. This needs to
 			// happen before the command is completed: the next command of
 			// the caller must not be encoded according to the old ones.
-			c.setCaps(nil)
+			if code != "CAPABILITY" {
+				c.setCaps(nil)
+			}
 		}
 	}
 
